@@ -74,26 +74,37 @@ def dt_meaning(d, s, f):
 
 
 # ---- output readers: Val -> (meaning term, valid term, flat list of output terms for replay comparison)
+def _need_ints(v, n):
+    from .mir import Unsupported
+    if v.kind != "agg" or len(v.fields) < n or any(f.kind != "int" for f in v.fields[:n]):
+        raise Unsupported(f"returned value is not made of interpreted integers: {v}")
+
+
 def out_dur(v):
+    _need_ints(v, 1)
     return v.fields[0].term, rng(v.fields[0].term, "u64"), [v.fields[0].term]
 
 
 def out_inst(v):
+    _need_ints(v, 2)
     s, n = v.fields[0].term, v.fields[1].term
     return m_pair(s, n), f"(and {rng(s, 'u64')} (>= {n} 0) (< {n} {NPS}))", [s, n]
 
 
 def out_std(v):
+    _need_ints(v, 2)
     s, n = v.fields[0].term, v.fields[1].term
     return m_pair(s, n), f"(and {rng(s, 'u64')} (>= {n} 0) (< {n} {NPS}))", [s, n]
 
 
 def out_st(v):
+    _need_ints(v, 2)
     s, n = v.fields[0].term, v.fields[1].term
     return m_pair(s, n), f"(and {rng(s, 'i64')} (>= {n} 0) (< {n} {NPS}))", [s, n]
 
 
 def out_td(v):
+    _need_ints(v, 2)
     C = Consts
     s, n = v.fields[0].term, v.fields[1].term
     valid = (f"(and (>= {n} 0) (< {n} {NPS}) (>= {s} {lit(C.TD_MIN_SECS)}) (<= {s} {lit(C.TD_MAX_SECS)}) "
@@ -183,7 +194,7 @@ def boundary_inputs(name):
         secs = big + [59, 60, 119, 86399, 86400, (C.MAX_DAYS - 719163) * 86400 + 86399, (C.MAX_DAYS - 719163) * 86400 + 86400, 8210266876799, 8210266876800]
         out = [[s, n] for s in secs for n in nan + nan_bad]
     elif name == "st_to_inst":
-        out = [[s, n] for s in big if s <= I64MAX for n in nan]
+        out = [[s, n] for s in big + [-1, -2, -1000000000] if s <= I64MAX for n in nan]
     elif name == "td_to_dur":
         secs = [0, 1, -1, 9223372036, 9223372037, -9223372036, -9223372037, 18446744073, 18446744074, C.TD_MAX_SECS, C.TD_MIN_SECS, C.TD_MAX_SECS - 1, C.TD_MIN_SECS + 1]
         out = [[s, n] for s in secs for n in [0, 1, 709551615, 709551616, 854775807, 854775808, NPS - 1, 145224192, 145224193]]
